@@ -572,13 +572,15 @@ func c18ValidateFirst(c *Ctx, ms map[string]*fsmx.Machine) {
 	// request types that arrive from the board: the decode targets of FSMRequestFromMessage
 	decoded := map[string]bool{}
 	if fr := c.Fn("C18/R4", pkgTypes, "", "FSMRequestFromMessage"); fr != nil {
-		ssax.Instrs(fr, func(in ssa.Instruction) {
-			if al, ok := in.(*ssa.Alloc); ok {
-				if nt, ok := al.Type().(*types.Pointer).Elem().(*types.Named); ok && nt.Obj().Pkg() != nil && strings.HasSuffix(nt.Obj().Pkg().Path(), pkgRequests) {
-					decoded[nt.Obj().Name()] = true
+		for _, cf := range c.moduleClosure(fr) {
+			ssax.Instrs(cf, func(in ssa.Instruction) {
+				if al, ok := in.(*ssa.Alloc); ok {
+					if nt, ok := al.Type().(*types.Pointer).Elem().(*types.Named); ok && nt.Obj().Pkg() != nil && strings.HasSuffix(nt.Obj().Pkg().Path(), pkgRequests) {
+						decoded[nt.Obj().Name()] = true
+					}
 				}
-			}
-		})
+			})
+		}
 	}
 	r.Count("r4_request_types_decoded_from_messages", len(decoded))
 	for _, rel := range fsmx.MachinePkgs {
